@@ -377,6 +377,73 @@ fn one_case(w: &mut World, rep: &mut Report, rng: &mut Rng, kind: Kind, n_other:
 	cleanup(w);
 }
 
+/// Refusal clause, the hard instance: a transaction that is already mined but which the wallet has not
+/// looked at since (no refresh between the block and the cancel). `cancel_tx` refreshes first, so it
+/// must find the transaction confirmed and refuse; nothing may be cancelled or released. Run for a send
+/// with change (confirmed through its change output) and without (confirmed only by kernel look-up).
+fn mined_but_not_yet_seen(w: &mut World, rep: &mut Report, rng: &mut Rng, no_change: bool, by_slate_id: bool) {
+	fund(w);
+	cleanup(w);
+	let wal = &w.wallets[0];
+	let _ = wal.refresh();
+	let height = w.node.chain().head().map(|h| h.height).unwrap_or(0);
+	let active = match wal.active_account() {
+		Ok(a) => a,
+		Err(_) => return,
+	};
+	let coin = wal.all_outputs().unwrap_or_default().into_iter().filter(|o| o.eligible_to_spend(height, 1) && o.root_key_id == active).map(|o| o.value).max().unwrap_or(0);
+	if coin == 0 {
+		return;
+	}
+	let args = if no_change {
+		InitTxArgs { amount: coin, amount_includes_fee: Some(true), minimum_confirmations: 1, max_outputs: 1, num_change_outputs: 1, selection_strategy_is_use_all: false, ..Default::default() }
+	} else {
+		InitTxArgs { amount: 1_000_000_000 + rng.below(2_000_000_000), minimum_confirmations: 1, num_change_outputs: 1, selection_strategy_is_use_all: false, ..Default::default() }
+	};
+	let case = json!({"job":"c05","scenario":"send finalized, posted and mined; no refresh; then cancel_tx","no_change_output": no_change, "cancel_by": if by_slate_id {"slate id"} else {"log id"}});
+	let r = (|| -> Result<(uuid::Uuid, grin_core::core::Transaction), libwallet::Error> {
+		let s = wal.init_send(args)?;
+		wal.lock_outputs(&s)?;
+		let s2 = w.wallets[1].receive(&s, None)?;
+		let s3 = wal.finalize(&s2)?;
+		let tx = s3.tx_or_err()?.clone();
+		wal.post(&tx)?;
+		Ok((s.id, tx))
+	})();
+	let (id, tx) = match r {
+		Ok(x) => x,
+		Err(e) => {
+			rep.count(&format!("mined-not-seen:setup-refused:{}", err_kind(&e)));
+			cleanup(w);
+			return;
+		}
+	};
+	let mined = w.mine(None, true).map(|m| m.iter().any(|t| t.kernels()[0].excess == tx.kernels()[0].excess)).unwrap_or(false);
+	if !mined {
+		rep.inconclusive("the posted transaction was not mined");
+		cleanup(w);
+		return;
+	}
+	let wal = &w.wallets[0];
+	rep.eval();
+	let entry_id = wal.all_txs().unwrap_or_default().iter().find(|t| t.tx_slate_id == Some(id) && t.tx_type == TxLogEntryType::TxSent).map(|t| t.id);
+	let r = if by_slate_id { catch(|| wal.cancel(None, Some(id))) } else { catch(|| wal.cancel(entry_id, None)) };
+	let after = wal.all_txs().unwrap_or_default().into_iter().find(|t| t.tx_slate_id == Some(id) && (t.tx_type == TxLogEntryType::TxSent || t.tx_type == TxLogEntryType::TxSentCancelled));
+	match r {
+		Err((loc, msg)) => rep.violation(&format!("C05|panic|{}", loc), &msg, case.clone()),
+		Ok(Ok(())) => rep.violation(&format!("C05|cancel-accepted|mined-but-not-yet-seen|{}", if no_change { "no-change" } else { "with-change" }), &format!("cancel_tx returned Ok for a transaction that is already on chain (the wallet had not refreshed since the block); entry now {:?}", after.as_ref().map(|t| (type_str(&t.tx_type), t.confirmed))), case.clone()),
+		Ok(Err(_)) => match after {
+			Some(t) if t.tx_type == TxLogEntryType::TxSent => {
+				rep.count("refused:mined-but-not-yet-seen");
+				rep.distinct(&("mined-not-seen", no_change, by_slate_id));
+			}
+			other => rep.violation("C05|refused-cancel-changed-state|mined-but-not-yet-seen", &format!("cancel_tx refused, but the entry is now {:?}", other.as_ref().map(|t| (type_str(&t.tx_type), t.confirmed))), case.clone()),
+		},
+	}
+	let _ = w.wallets[1].refresh();
+	cleanup(w);
+}
+
 pub fn run(a: &Args) {
 	let mut rep = Report::new("C05");
 	let mut rng = Rng::new(a.shard_seed() ^ 0xC05);
@@ -420,6 +487,12 @@ pub fn run(a: &Args) {
 			if idx % a.nshards == a.shard {
 				one_case(&mut w, &mut rep, &mut rng, *kind, 1, false, 1, true, false);
 			}
+		}
+	}
+	// mined-but-not-yet-seen refusals (both shapes, both ways of addressing), dealt across shards
+	for (k, (nc, by)) in [(true, true), (true, false), (false, true), (false, false)].iter().enumerate() {
+		if (k + a.shard) % 2 == 0 || a.thorough() {
+			mined_but_not_yet_seen(&mut w, &mut rep, &mut rng, *nc, *by);
 		}
 	}
 	let _: Option<Value> = None;
